@@ -37,6 +37,9 @@ pub assume_specification [std::time::Instant::checked_sub] (i: &std::time::Insta
             r is None ==> inst(*i) - dur(d) < inst_floor();
 pub assume_specification [<std::time::Duration as Clone>::clone] (d: &std::time::Duration) -> (r: std::time::Duration)
     ensures r == *d;
+// the clock read directly (units that follow the clock through their ghost world use rule T-CLOCK instead): any instant, any elapsed time
+pub assume_specification [std::time::Instant::now] () -> (r: std::time::Instant);
+pub assume_specification [std::time::Instant::elapsed] (i: &std::time::Instant) -> (r: std::time::Duration);
 pub assume_specification [<std::time::Instant as Clone>::clone] (d: &std::time::Instant) -> (r: std::time::Instant)
     ensures r == *d;
 }
